@@ -1,5 +1,6 @@
 SPECIFICATION MCSpec
 CONSTANTS
+  Async = FALSE
   MaxThreads = 2
   NKeys = 2
   NNs = 1
@@ -10,5 +11,6 @@ INVARIANT LazyOnlyAbsent
 INVARIANT SoloReadExact
 INVARIANT SeenWritten
 INVARIANT CurrentSeen
+INVARIANT IssueOrder
 INVARIANT EmitScripts
 CHECK_DEADLOCK TRUE
